@@ -97,9 +97,13 @@ class _Normalise(ast.NodeTransformer):
     def _guard_continue(body):
         """`if C: continue` directly in a loop body, followed by more statements  ==  `if not C: <the rest>`"""
         for i, st in enumerate(body):
-            if isinstance(st, ast.If) and not st.orelse and len(st.body) == 1 and isinstance(st.body[0], ast.Continue) and body[i + 1:]:
+            if isinstance(st, ast.If) and not st.orelse and st.body and isinstance(st.body[-1], ast.Continue) and body[i + 1:]:
                 rest = _Normalise._guard_continue(body[i + 1:])
-                return body[:i] + [ast.copy_location(ast.If(test=negate(st.test), body=rest, orelse=[]), st)]
+                if len(st.body) == 1:
+                    return body[:i] + [ast.copy_location(ast.If(test=negate(st.test), body=rest, orelse=[]), st)]
+                # `if C: A...; continue` then REST  ==  `if C: A... else: REST`   (A has no other jump out of the loop body)
+                if not any(isinstance(x, (ast.Continue, ast.Break)) for b in st.body[:-1] for x in ast.walk(b)):
+                    return body[:i] + [ast.copy_location(ast.If(test=st.test, body=st.body[:-1], orelse=rest), st)]
         return body
 
 
